@@ -523,10 +523,7 @@ func checkC15(c *core.Ctx) {
 	// ---------- CLI level: interval numbers far beyond anything musical: the size is 12 per octave, exactly, or the degree is refused
 	hugeNums := []string{"5380300354831952555", "5380300354831952556", "5380300354831952560", "18446744073709551615", "3074457345618258590", "1000000000000", "4294967301", "8589934593", "9223372036854775807", "768614336404564650", "768614336404564651", "1537228672809129301", "65537", "100000"}
 	majorSizes := []int64{0, 0, 2, 4, 5, 7, 9, 11}
-	c.Stream("hugenumber", len(hugeNums)*3, func(i int, _ *rand.Rand) {
-		ns := hugeNums[i%len(hugeNums)]
-		root := roots[(i*5)%len(roots)]
-		pre := []string{"", "b", "#"}[i/len(hugeNums)]
+	hugeCase := func(stream string, i int, ns string, root theory.Note, pre string) {
 		n, _ := new(big.Int).SetString(ns, 10)
 		simple := new(big.Int).Mod(new(big.Int).Sub(n, big.NewInt(1)), big.NewInt(7)).Int64() + 1
 		oct := new(big.Int).Div(new(big.Int).Sub(n, big.NewInt(1)), big.NewInt(7))
@@ -545,7 +542,7 @@ func checkC15(c *core.Ctx) {
 		}
 		sig := "hugenumber:" + pre + ns
 		if a := abnormal(res); a != "" {
-			c.Violate("hugenumber", i, sig+":abnormal", fmt.Sprintf("an attribute of degree %s%s: info attr describe %s", pre, ns, a), obs(res))
+			c.Violate(stream, i, sig+":abnormal", fmt.Sprintf("an attribute of degree %s%s: info attr describe %s", pre, ns, a), obs(res))
 			return
 		}
 		if !res.OK() {
@@ -554,21 +551,40 @@ func checkC15(c *core.Ctx) {
 		}
 		m, err := yamlMap(res.Stdout)
 		if err != nil {
-			c.Violate("hugenumber", i, sig+":yaml", err.Error(), obs(res))
+			c.Violate(stream, i, sig+":yaml", err.Error(), obs(res))
 			return
 		}
 		got, ok := new(big.Int).SetString(strings.TrimSpace(fmt.Sprint(m["semitone"])), 10)
 		if !ok || got.Cmp(want) != 0 {
-			c.Violate("hugenumber", i, sig+":size", fmt.Sprintf("degree %s%s is accepted and reported with %v semitones; twelve per octave gives %s", pre, ns, m["semitone"], want), obs(res))
+			c.Violate(stream, i, sig+":size", fmt.Sprintf("degree %s%s is accepted and reported with %v semitones; twelve per octave gives %s", pre, ns, m["semitone"], want), obs(res))
 			return
 		}
 		ap, err := theory.ParseNote(asStr(m["applied"]))
 		wantPC := int(new(big.Int).Mod(new(big.Int).Add(want, big.NewInt(int64(root.Pitch()+120))), big.NewInt(12)).Int64())
 		if err != nil || ((ap.Pitch()%12)+12)%12 != wantPC {
-			c.Violate("hugenumber", i, sig+":note", fmt.Sprintf("degree %s%s from %s: applied note %q, root + interval has pitch class %d", pre, ns, root, asStr(m["applied"]), wantPC), obs(res))
+			c.Violate(stream, i, sig+":note", fmt.Sprintf("degree %s%s from %s: applied note %q, root + interval has pitch class %d", pre, ns, root, asStr(m["applied"]), wantPC), obs(res))
+			return
+		}
+		if od, ok := new(big.Int).SetString(strings.TrimSpace(fmt.Sprint(m["octave_diff"])), 10); !ok || new(big.Int).Add(big.NewInt(int64(ap.Pitch())), new(big.Int).Mul(od, big.NewInt(12))).Cmp(new(big.Int).Add(want, big.NewInt(int64(root.Pitch())))) != 0 {
+			c.Violate(stream, i, sig+":octave", fmt.Sprintf("degree %s%s from %s: applied %s with octave_diff %v is not root + interval = %s + %s", pre, ns, root, ap, m["octave_diff"], root, want), obs(res))
 			return
 		}
 		c.Nontrivial(sig + root.String())
+	}
+	c.Stream("hugenumber", len(hugeNums)*3, func(i int, _ *rand.Rand) {
+		hugeCase("hugenumber", i, hugeNums[i%len(hugeNums)], roots[(i*5)%len(roots)], []string{"", "b", "#"}[i/len(hugeNums)])
+	})
+	// the numbers around the largest degree crd accepts, from the roots at the top of the octave (where root +
+	// interval needs the most room) and two at the bottom (round 10, C15-mutR10a: the bound loosened by three octaves)
+	var edgeRoots []theory.Note
+	for _, rt := range roots {
+		if p := ((rt.Pitch() % 12) + 12) % 12; p >= 8 || p <= 1 {
+			edgeRoots = append(edgeRoots, rt)
+		}
+	}
+	c.Stream("hugeroot", 44*len(edgeRoots), func(i int, _ *rand.Rand) {
+		n := new(big.Int).Add(big.NewInt(5380300354831952527), big.NewInt(int64(i%44)))
+		hugeCase("hugeroot", i, n.String(), edgeRoots[i/44], []string{"", "", "#", "b"}[i%4])
 	})
 
 	// ---------- CLI level: a chord at the end of a chain of extends is described with every inherited note
